@@ -453,3 +453,58 @@ import os as _os
 if not _os.environ.get('REAL_FULL'):
     REAL_DEC[0].yield_ensures = [c for c in REAL_DEC[0].yield_ensures if c[0] not in ('binary-exponent', 'binary-mantissa')]
 CONTRACTS = CONTRACTS + REAL_DEC
+
+
+# ---- CER/DER BOOLEAN (X.690 11.1): exactly one contents octet, 00 or FF; anything else is refused ---------------------
+CER_BOOLEAN_DEC = [Contract(
+    id='cer.decoder::BooleanPayloadDecoder.valueDecoder[%s]' % mode, file='pyasn1/codec/cer/decoder.py',
+    qual='BooleanPayloadDecoder.valueDecoder', properties=['C15', 'C09', 'C08'],
+    params=payload_params('BooleanPayloadDecoder', mode), requires=['length >= 0'],
+    calls={'readFromStream': _read_model(mode)}, is_generator=True,
+    yield_ensures=[('consumed', CONSUMED),
+                   ('true-is-ff', 'last_yield().value == (1 if substrate.data[old(substrate.pos)] == 255 else 0)'),
+                   ('only-canonical-octets', 'substrate.data[old(substrate.pos)] == 255 or substrate.data[old(substrate.pos)] == 0')],
+    exit_ensures=[('one-result', 'nyields() == 1'), ('single-octet', 'length == 1')],
+    raises={'PyAsn1Error': 'length != 1 or (substrate.data[substrate.pos] != 255 and substrate.data[substrate.pos] != 0)'}
+    if mode == 'complete' else {},
+    may_raise={'EndOfStreamError': True} if mode == 'complete' else {'EndOfStreamError': True, 'PyAsn1Error': True},
+    external=['consumed', 'true-is-ff', 'only-canonical-octets', 'one-result', 'single-octet']) for mode in ('complete',)]
+CONTRACTS = CONTRACTS + CER_BOOLEAN_DEC
+
+
+# ---- Decoder.__call__ (the one-shot decode()): first item of the streaming decoder + everything that follows --------
+def _streaming_decoder(ex, substrate, asn1Spec=None, **options):
+    """assumed contract of StreamingDecoder(...) seen through iteration (its parts are under contract: the single item
+    decoder regions, isEndOfStream): the first thing it yields is an underrun marker or a decoded object, produced
+    after consuming some k >= 0 octets of the stream"""
+    pos = substrate.fields['pos']
+    rest = Length(substrate.fields['data'].z) - pos
+    k = ex.fresh('item.octets', I)
+    ex.assume(And(k >= 0, k <= rest))
+    substrate.fields['pos'] = pos + k
+    ex.ghost['consumed'] = k
+    if ex.choose(ex.fresh('item.underrun', BoolSort()), 'first-item-underrun'):
+        return Tup([ExcV('SubstrateUnderrunError')], 'list')
+    return Tup([Obj('Asn1Object', {}, name='decoded')], 'list')
+
+
+DECODE_CALL = Contract(
+    id='ber.decoder::Decoder.__call__', file=F, qual='Decoder.__call__', properties=['C07', 'C06', 'C01'],
+    params=dict(cls=PObj('Decoder', STREAMING_DECODER=PConst(FnV(_streaming_decoder, 'STREAMING_DECODER'))),
+                substrate=PStream('complete'), asn1Spec=PConst(None), options=POptions()),
+    globals={'asSeekableStream': FnV(lambda ex, s: s, 'asSeekableStream'), 'null': SeqV(z3.Empty(S), 'bytes')},
+    calls={'readFromStream': _read_model('complete'), 'next': lambda ex, x: x,
+           'cls.STREAMING_DECODER': _streaming_decoder},
+    ghost={'consumed': 0},
+    ensures=[('returns-first-object', 'result[0] is last_result("cls.STREAMING_DECODER")[0]'),
+             # C07: the remainder is exactly what follows the octets the decoder consumed -- nothing dropped, nothing kept
+             ('remainder-is-everything-after-the-item',
+              'result[1] == X.sub(substrate.data, old(substrate.pos) + consumed, len(substrate.data))'),
+             ('remainder-is-bytes', 'isinstance(result[1], bytes)'),
+             ('never-hands-out-a-marker', 'not isinstance(result[0], SubstrateUnderrunError)')],
+    may_raise={'SubstrateUnderrunError': True},
+    raise_ensures={'SubstrateUnderrunError': ['isinstance(last_result("cls.STREAMING_DECODER")[0], SubstrateUnderrunError)']},
+    external=['remainder-is-everything-after-the-item'],
+    note='decode() = first item of the streaming decoder; an underrun marker becomes SubstrateUnderrunError (C06), the '
+         'rest of the input is handed back untouched (C07)')
+CONTRACTS = CONTRACTS + [DECODE_CALL]
